@@ -85,19 +85,114 @@ def lean_sources_hash():
     return h.hexdigest()
 
 
+def lean_str(x):
+    out = ['"']
+    for ch in x:
+        if ch == '"':
+            out.append('\\"')
+        elif ch == "\\":
+            out.append("\\\\")
+        elif ch == "\n":
+            out.append("\\n")
+        elif ch == "\t":
+            out.append("\\t")
+        elif ch == "\r":
+            out.append("\\r")
+        elif ord(ch) < 32 or ord(ch) == 127:
+            out.append("\\x%02x" % ord(ch))
+        else:
+            out.append(ch)
+    out.append('"')
+    return "".join(out)
+
+
+def lean_list(l):
+    return "[" + ", ".join(lean_str(x) for x in l) + "]"
+
+
+TABLES_TAIL = """def builtinDocs (name : String) : String :=
+  match builtinDocsTable.find? (fun p => p.1 == name) with
+  | some p => p.2
+  | none => ""
+
+def builtinEntry (name : String) : Option (String × String × List String × String) :=
+  builtinsTable.find? (fun p => p.1 == name)
+
+def isStatementBuiltin (name : String) : Bool :=
+  match builtinEntry name with
+  | some (_, ctx, _, _) => ctx == "statement"
+  | none => false
+
+def isOriginBuiltin (name : String) : Bool :=
+  match builtinEntry name with
+  | some (_, ctx, _, _) => ctx == "origin"
+  | none => false
+
+def builtinParams (name : String) : List String :=
+  match builtinEntry name with
+  | some (_, _, ps, _) => ps
+  | none => []
+
+def builtinReturn (name : String) : String :=
+  match builtinEntry name with
+  | some (_, _, _, r) => r
+  | none => ""
+
+end NS
+"""
+
+
 def regenerate_tables():
-    """translator tie: Model/Tables.lean is regenerated from the Go sources of internal/analysis on every
-    run (written only when its content changes, so that an unchanged tree costs no rebuild).
+    """translator tie: Model/Tables.lean is regenerated from the tree under check on every run (written only when
+    its content changes, so that an unchanged tree costs no rebuild):
+      * builtin signatures, allowed types, diagnostic severities: dumped AT RUN TIME by /verif/extract/rt (compiled
+        into the module with `go build -overlay`), i.e. what the program holds, however the source spells it;
+      * the os.Exit sites of internal/cmd: read from the source with go/ast (conditions canonicalised).
     Returns None on success, or an error text."""
-    r = subprocess.run(["go", "run", ".", REPO], cwd=os.path.join(VERIF, "extract"), env=GOENV,
+    os.makedirs(BUILD, exist_ok=True)
+    ovpath = os.path.join(BUILD, "overlay-tables.json")
+    with open(ovpath, "w") as f:
+        json.dump({"Replace": {os.path.join(REPO, "internal", "veriftables", "main.go"): os.path.join(VERIF, "extract", "rt", "main.go")}}, f)
+    r = subprocess.run(["go", "run", "-overlay", ovpath, "./internal/veriftables"], cwd=REPO, env=GOENV,
                        stdout=subprocess.PIPE, stderr=subprocess.PIPE, text=True)
     if r.returncode != 0:
-        return "table extraction failed: " + r.stderr[-500:]
+        return "run-time table dump failed: " + r.stderr[-500:]
+    try:
+        t = json.loads(r.stdout)
+    except Exception as e:
+        return "run-time table dump unreadable: %s" % e
+    r2 = subprocess.run(["go", "run", ".", REPO, "--exits"], cwd=os.path.join(VERIF, "extract"), env=GOENV,
+                        stdout=subprocess.PIPE, stderr=subprocess.PIPE, text=True)
+    if r2.returncode != 0:
+        return "exit-site extraction failed: " + r2.stderr[-500:]
+    try:
+        exits = json.loads(r2.stdout)
+    except Exception as e:
+        return "exit-site extraction unreadable: %s" % e
+    b = []
+    b.append("/-\n  Model/Tables.lean — REGENERATED from the tree under check on every run of bin/check (do not edit): builtin\n"
+             "  signatures, allowed types and diagnostic severities as the program holds them at run time (/verif/extract/rt),\n"
+             "  CLI exit sites from the source of internal/cmd (/verif/extract --exits).\n-/\nnamespace NS\n\n")
+    b.append("def allowedTypes : List String := %s\n\n" % lean_list(t["allowedTypes"]))
+    b.append("/-- (name, context, parameter types, return type) ; context: \"statement\" | \"origin\" -/\n"
+             "def builtinsTable : List (String × String × List String × String) := [\n")
+    b.append(",\n".join("  (%s, %s, %s, %s)" % (lean_str(x["name"]), lean_str(x["ctx"]), lean_list(x["params"] or []), lean_str(x["ret"]))
+                        for x in t["builtins"]))
+    b.append("\n]\n\ndef builtinDocsTable : List (String × String) := [\n")
+    b.append(",\n".join("  (%s, %s)" % (lean_str(x["name"]), lean_str(x["docs"])) for x in t["builtins"]))
+    b.append("\n]\n\n/-- (diagnostic kind, severity) ; 1 = error, 2 = warning -/\ndef severityTable : List (String × Nat) := [\n")
+    b.append(",\n".join("  (%s, %d)" % (lean_str(k), v) for k, v in sorted(t["severities"].items())))
+    b.append("\n]\n\n/-- os.Exit sites of internal/cmd: (function, nearest enclosing if-condition, argument), as source text -/\n"
+             "def cliExitTable : List (String × String × String) := [\n")
+    b.append(",\n".join("  (%s, %s, %s)" % (lean_str(e["fn"]), lean_str(e["guard"]), lean_str(e["arg"])) for e in exits))
+    b.append("\n]\n\n")
+    b.append(TABLES_TAIL)
+    text = "".join(b)
     path = os.path.join(LEAN, "Model", "Tables.lean")
     old = open(path).read() if os.path.exists(path) else ""
-    if old != r.stdout:
+    if old != text:
         with open(path, "w") as f:
-            f.write(r.stdout)
+            f.write(text)
     return None
 
 
